@@ -68,8 +68,15 @@ def _setup_worker():
         apicov.install()
 
 
+_POISONED = [None]
+
+
 def run_task(task):
     """task: dict(scen=module, params=..., strat=spec, gran=..., opts=...)  ->  result dict"""
+    if _POISONED[0]:
+        # an earlier execution in this worker process ran into the wall-clock limit: a thread of it may still sit in an
+        # uncontrolled primitive (e.g. a lock created at import time) - nothing run here afterwards can be trusted
+        return {"ok": False, "failure": ("worker-poisoned", _POISONED[0]), "trace": [], "schedule": [], "outcome": None}
     _setup_worker()
     from mxv import engine as E, strategies as St
     try:
@@ -86,6 +93,8 @@ def run_task(task):
                               visible=o.get("visible"), max_steps=o.get("max_steps", 30000),
                               horizon=o.get("horizon", 10 ** 8), ops_log=o.get("ops_log", False),
                               setup=o.get("setup"), lock_log=bool(task.get("lock_log")))
+        if res.failure and res.failure[0] == "wallclock-timeout":
+            _POISONED[0] = "wall-clock limit hit by %s %s" % (task.get("scen"), json.dumps(task.get("params"))[:300])
         events = list(res.events)
         # fold the engine's classification into the trace so that TLC judges it too
         for (name, kind, what) in res.blocked:
